@@ -157,17 +157,17 @@ def run(chk):
     fails = []
     ident = {}
     mats = []
-    for _ in range(chk.n(2500, 20000)):
+    for _ in range(chk.n(2500, 80000)):
         m, _t = cl.gen_matrix(rng, maxn=chk.n(9, 14), exact=rng.random() < 0.5)
         if len(m) >= 2:
             mats.append((m, 'arbitrary'))
     gen_u, gen_a = [], []
-    for _ in range(chk.n(1000, 8000)):
+    for _ in range(chk.n(1000, 32000)):
         n = rng.choice([2, 3, 4, 5, 6, 7, 8, chk.n(10, 20)])
         cladesG, m = rand_rooted(rng, n)
         mats.append((m, 'ultrametric'))
         gen_u.append((len(mats) - 1, cladesG))
-    for _ in range(chk.n(1000, 8000)):
+    for _ in range(chk.n(1000, 32000)):
         n = rng.choice([3, 4, 5, 6, 7, 8, chk.n(10, 20)])
         splitsG, m = rand_unrooted(rng, n)
         mats.append((m, 'additive'))
